@@ -640,24 +640,23 @@ func c06CaseAligned(in c06In) Case {
 	disk, name := content, "aligned.log"
 	full := in
 	full.Aligned = nil
-	full.Gunzip = a.Form == "plain-z" || a.Form == "gz-z"
-	if a.Form == "gz-z" {
+	full.Gunzip = strings.HasSuffix(a.Form, "-z")
+	if a.Form == "gz-z" || a.Form == "fifo-gz-z" {
 		disk, name = gz(content), "aligned.log.gz"
 	}
+	isFifo := strings.HasPrefix(a.Form, "fifo")
 	fromStdin := a.Form == "stdin"
 	if fromStdin {
 		full.Args, full.Stdin = nil, hex.EncodeToString(content)
 	} else {
 		full.Args = []string{name}
-		full.Tree = []c06Ent{{Path: name, Data: hex.EncodeToString(disk)}}
+		full.Tree = []c06Ent{{Path: name, Data: hex.EncodeToString(disk), Fifo: isFifo}}
 	}
 	root := filepath.Join(workdir(), fmt.Sprintf("t%d", caseNo))
-	if err := makeTree(root, full.Tree); err != nil {
-		fmt.Fprintln(os.Stderr, "c06: cannot build tree:", err)
-		os.Exit(2)
-	}
+	full, writers, _ := prepare(root, full)
 	defer os.RemoveAll(root)
 	out := runRare(root, full)
+	writers.finish()
 
 	gzo := "None"
 	if full.Gunzip {
@@ -692,6 +691,9 @@ func c06CaseAligned(in c06In) Case {
 	out.Lines = nil
 	kb, _ := json.Marshal(in)
 	tags := []string{fmt.Sprintf("exit=%d", out.Exit), "aligned-records:" + a.Form, fmt.Sprintf("aligned:%dx%d,batch=%d", a.Records, a.Width, in.Batch)}
+	if a.Form == "fifo-z" {
+		tags = append(tags, "fifo:-z-not-gzip", "kf:"+kfGunzipRewind)
+	}
 	return Case{Coq: coq, Desc: map[string]any{"input": in, "impl": out}, Key: string(kb),
 		Nontrivial: a.Width > 8 && 131072%a.Width == 0 && a.Records*a.Width > 131072, Tags: tags}
 }
@@ -704,6 +706,10 @@ func alignedCases() []c06In {
 	}
 	// the default batch size with several workers: 24 lines are held unsent at the first boundary and the next read refills the whole buffer
 	out = append(out, c06In{Aligned: &c06Aligned{Records: 2200, Width: 128, Form: "plain"}, Readers: 2, Workers: 3, Batch: 1000, Q: 'Q'})
+	// the same records (> 128 KiB) through a named pipe: plain, plain under -z (the probe's bytes must not be lost), gzip under -z
+	for _, f := range []string{"fifo", "fifo-z", "fifo-gz-z"} {
+		out = append(out, c06In{Aligned: &c06Aligned{Records: 1300, Width: 128, Form: f}, Readers: 1, Workers: 2, Batch: 1000, Q: 'Q'})
+	}
 	return out
 }
 
@@ -982,6 +988,14 @@ func genTree(r *Rng, numeric bool) []c06Ent {
 			kind, data := genFile(r, numeric)
 			tree = append(tree, c06Ent{Path: prefix + n, Data: hex.EncodeToString(data), Kind: kind})
 		}
+		if r.Chance(1, 9) && !used["pipe"] {
+			used["pipe"] = true
+			kind, data := genFile(r, numeric)
+			if len(data) > 3000 {
+				kind, data = "plain", genText(r, numeric)
+			}
+			tree = append(tree, c06Ent{Path: prefix + "pipe", Data: hex.EncodeToString(data), Kind: kind, Fifo: true})
+		}
 		if r.Chance(1, 3) {
 			pp := Pick(r, patternPairs)
 			if !used[pp[0]] && !used[pp[1]] {
@@ -1202,6 +1216,33 @@ func patternCases() []c06In {
 	return out
 }
 
+// named pipes as argument, as glob match and below a -R directory, with and without -z
+func fifoCases() []c06In {
+	medium := bytes.Repeat([]byte("a line of a pipe Q\n"), 280) // > 4096 bytes: more than one buffer of the gzip probe
+	contents := []struct {
+		kind string
+		data []byte
+	}{
+		{"plain", []byte("a\nb\nc\n")}, {"plain", []byte("ab")}, {"empty", nil}, {"plain", medium},
+		{"gz", gz([]byte("zipped\nQ in a pipe\n"))}, {"gz-trunc", gz([]byte("zipped\n"))[:7]}, {"gz-trunc", gz(medium)[:40]},
+	}
+	var out []c06In
+	for i, c := range contents {
+		tree := []c06Ent{
+			{Path: "q", Dir: true}, {Path: "q/a.log", Data: hex.EncodeToString([]byte("file\n")), Kind: "plain"},
+			{Path: "q/p", Data: hex.EncodeToString(c.data), Kind: c.kind, Fifo: true},
+			{Path: "q/sub", Dir: true}, {Path: "q/sub/b.log", Data: hex.EncodeToString([]byte("1\n2\n")), Kind: "plain"},
+		}
+		for j, as := range [][]string{{"q/p"}, {"q/a.log", "q/p"}, {"q/*"}, {"q/?"}, {"q"}, {"q/sub", "q/p"}} {
+			for _, z := range []bool{false, true} {
+				rec := len(as) == 1 && as[0] == "q" || j == 5
+				out = append(out, c06In{Tree: tree, Args: as, Gunzip: z, Recursive: rec, Readers: 1 + (i+j)%3, Workers: 1 + j%2, Batch: 1000, Q: 'Q', Mode: (i + j) % 2})
+			}
+		}
+	}
+	return out
+}
+
 func gen(r *Rng, n int, tier string) []Case {
 	buildRare()
 	var cases []Case
@@ -1212,6 +1253,9 @@ func gen(r *Rng, n int, tier string) []Case {
 		cases = append(cases, c06Case(in))
 	}
 	for _, in := range patternCases() {
+		cases = append(cases, c06Case(in))
+	}
+	for _, in := range fifoCases() {
 		cases = append(cases, c06Case(in))
 	}
 	for len(cases) < n {
@@ -1225,10 +1269,10 @@ func main() {
 		Name:   "C06",
 		Header: "From Coq Require Import List NArith ZArith String.\nFrom RareV Require Import Corr.C06Case.\nImport ListNotations.\nLocal Open Scope string_scope.\nLocal Open Scope N_scope.\n",
 		Rule: "the rare binary built from the tree under test, run (filter -e '{src}:{line}:{0}', filter -m '^.*Q.*$', histo -e {src} -e {0}) in real temporary trees: " +
-			"a fixed scope (15 argument lists x -z x -R on one tree with plain / gzip / truncated gzip / empty files and nested directories, stdin forms, 26 argument lists x -R over a tree of pattern-named files and directories next to the siblings their names match as patterns (x[1].log+x1.log, s*.txt+sab.txt, w?.txt+wa.txt, r[a-c].log+rb.log, a\\*b+a*b, *+zz, g[1]/+g1/, h*/+hx/, malformed k[), walked directly, from a parent, and mixed with the same names as command-line patterns; 5 large single-input cases of fixed-width numbered records (1300 x 128 bytes as plain file, plain under -z, gzip under -z, standard input, with --batch 100000 so that every line is still held when the buffer is refilled; 2200 x 128 bytes with the default batch and 3 workers): a newline is exactly the last byte of a full 128 KiB read-ahead buffer and every record must be printed exactly once under its own line number; standard input failing while read: directory handle at CLI level, and at library level batchers.OpenReaderToChan + helpers.DetermineErrorState over a reader that fails after 0-3 lines) then seeded random trees (depth <= 3, names incl. glob metacharacters, pattern-named entries paired with a sibling the name matches (1 directory in 3), malformed-pattern names, " +
+			"a fixed scope (15 argument lists x -z x -R on one tree with plain / gzip / truncated gzip / empty files and nested directories, stdin forms, 26 argument lists x -R over a tree of pattern-named files and directories next to the siblings their names match as patterns (x[1].log+x1.log, s*.txt+sab.txt, w?.txt+wa.txt, r[a-c].log+rb.log, a\\*b+a*b, *+zz, g[1]/+g1/, h*/+hx/, malformed k[), walked directly, from a parent, and mixed with the same names as command-line patterns; 84 named-pipe cases (7 contents: 6 bytes, 2 bytes, empty, > 4096 bytes, gzip, gzip cut inside its header, gzip cut inside its body; as argument, next to a file, as glob match, below a -R directory; x -z) with a writer goroutine per pipe; 8 large single-input cases of fixed-width numbered records (1300 x 128 bytes as plain file, plain under -z, gzip under -z, standard input, with --batch 100000 so that every line is still held when the buffer is refilled; 2200 x 128 bytes with the default batch and 3 workers; 1300 x 128 bytes through a named pipe: plain, plain under -z, gzip under -z): a newline is exactly the last byte of a full 128 KiB read-ahead buffer and every record must be printed exactly once under its own line number; standard input failing while read: directory handle at CLI level, and at library level batchers.OpenReaderToChan + helpers.DetermineErrorState over a reader that fails after 0-3 lines) then seeded random trees (depth <= 3, names incl. glob metacharacters, a named pipe in 1 directory of 9 (made a regular file when the arguments mention it more than once: a pipe cannot be read twice), pattern-named entries paired with a sibling the name matches (1 directory in 3), malformed-pattern names, " +
 			"files: plain, empty, gzip, truncated gzip (header/body/trailer), damaged trailer, damaged deflate body, multi-member, trailing garbage, plain > 4096 bytes) x 1-4 arguments (file, directory with or without trailing slash, glob, missing path, " +
 			"duplicate, malformed pattern, '-' first or later, none) x -z x -R x --readers 1-4 x --workers 1-3 x --batch {1,2,3,1000}. Oracles: os.Stat, filepath.Glob, os.ReadDir order, compress/gzip called by the harness on the same tree. " +
-			"distinct = distinct (tree, arguments, flags, stdin); non-trivial = at least one of: a directory walked by -R, a walked entry whose name read as a pattern would match something else, a glob with >= 2 matches, a pattern without match taken literally, a missing path next to other arguments, " +
+			"distinct = distinct (tree, arguments, flags, stdin); non-trivial = at least one of: a named pipe that is read, a directory walked by -R, a walked entry whose name read as a pattern would match something else, a glob with >= 2 matches, a pattern without match taken literally, a missing path next to other arguments, " +
 			"a directory opened as a file, a duplicate mention, a malformed pattern, -z over a file that is not plain text, standard input (ending normally, or failing while being read: directory handle / failing reader), a failed input next to inputs whose lines were printed.",
 		Gen: gen,
 		Replay: func(d json.RawMessage) (Case, error) {
